@@ -159,7 +159,7 @@ type result struct {
 
 const c06Keys = `^isolation-`
 const c03Keys = `^(acknowledged-write-lost|recovered-contents-match-no-prefix|wrong-outcome)$`
-const c05Keys = `^(replicas-apply-different-entries|replicas-do-not-converge|applied-entry-never-proposed)$`
+const c05Keys = `^(replicas-apply-different-entries|replicas-do-not-converge|applied-entry-never-proposed|replica-ends-without-what-was-applied)$`
 
 func main() {
 	world.Quiet()
